@@ -72,3 +72,22 @@ Theorem c13_history_canonical : forall f1 f2 ops1 ops2 n c1 c2,
   shape_of (c_tree c1) = shape_of (c_tree c2) /\ forall d, depths (c_tree c1) d = depths (c_tree c2) d.
 Proof. exact HeapHistory.c13_history_canonical. Qed.
 Print Assumptions c13_history_canonical.
+
+(* ---------------------------------------------------------------------------------------------- *)
+(* REGENERATED FROM THE SOURCE ON EVERY RUN (tools/gen -> Generated.g_code; Decisions.v): the decisions the model
+   takes at these points are the evaluations of the conditions the Go source has there, for all values of their
+   variables. *)
+From GK Require Import GExpr Generated Decisions.
+From Coq Require Import String.
+
+(* treap.go union / join: the root is `this` iff its priority is strictly greater (ties go to `that`) *)
+Theorem c13_union_priority_is_source :
+  exists c, decisions "Store.union" "thisItem.Priority" = [c] /\
+            forall x y, gtrue (prio_env x y) c = Some (Z.gtb x y).
+Proof. exact Decisions.union_priority_decision. Qed.
+Print Assumptions c13_union_priority_is_source.
+Theorem c13_join_priority_is_source :
+  exists c, decisions "Store.join" "thisItem.Priority" = [c] /\
+            forall x y, gtrue (prio_env x y) c = Some (Z.gtb x y).
+Proof. exact Decisions.join_priority_decision. Qed.
+Print Assumptions c13_join_priority_is_source.
